@@ -21,6 +21,14 @@ CLAIMED = {
          "canonicalize_molecule's result must equal the argument under the tag-derived bijection for all atom and bond attributes; arguments of canonicalize / serialize are snapshotted before and after; repeated calls, in-place edits and same-skeleton drawings in one session expose caches.", "§4 C12"),
  "C13": ("TLC bounded model (equitable, colour-homogeneous, orbit-respecting for all small molecules) + trace validation in property mode and round-by-round refinement mode",
          "The four predicates are evaluated by TLC on the implementation's partition attribute (atoms traced through tags; automorphisms by enumeration <=6 atoms and constructed+verified beyond), and every intermediate partition is compared with spec/Refine.tla up to RLimit atoms.", "§4 C13"),
+ "C06": ("TLC decodes paired molfile texts with the reference decoders (MolV3000/MolV2000), verifies they state the same atoms and bonded pairs, then compares the pipeline strings (trace validation); bounded models of both renderers",
+         "Pairs / triples of molfile texts of one molecule differing only in coordinates, bond types, charges, headers, index values, keywords, trailing blocks, line endings and V2000-vs-V3000 are read and pushed through the real pipeline; the pairing is verified by the specification on the decoded molecules, never on the reader's output.", "§4 C06"),
+ "C07": ("TLC bounded model Decode(Render(M,c)) = M over the V3000 spelling space + spec->code replay of every rendered text + trace validation of seeded spellings and corpus files against the character-level reference decoder",
+         "The reader's graph is compared attribute by attribute (element, order, charge, radical, mass, coordinates, bonds, bond types) with what spec/MolV3000.tla decodes from the same text, for continuation dashes at every offset, blank runs, property orders, index maps, extra keywords, star atoms with ENDPTS, explicit defaults (presence-sensitive pair comparison), CRLF.", "§4 C07"),
+ "C08": ("TLC bounded model of the V2000 encodings (charge codes / property lines / stale codes / grouping / zero entries / D,T with ISO) + spec->code replay + trace validation with paired V3000 renderings",
+         "The V2000 reader's graph equals the reference decoding and the paired V3000 reading; both get the same TUCAN string.", "§4 C08"),
+ "C09": ("TLC bounded model of the 71+dash wrap (every length 0..300, probe characters at the cut columns) + trace validation: every written text is decoded by the specification and compared with the graph; read-back by the real reader; round-trip strings",
+         "Line length, well-formedness, atoms in listing order with element / charge / radical / mass / six-decimal coordinates, bonds with types, for graphs whose line lengths are steered across the wrap columns (once, twice, three times) and for graphs not listed in label order.", "§4 C09"),
 }
 checks = []
 for p in props:
